@@ -95,9 +95,11 @@ inline void rc_check(char const* sub, rc::Gen<Case> gen, int cases, int max_size
             auto c = *gen;
             Flight<Case> fl(sub, c);
             auto d = prop(c);
-            if (!d.empty() && ctx().memory_only) {
+            if (!d.empty() && ctx().memory_only && d.find("lifetime:") == std::string::npos) {
                 // C02 memory mode: functional mismatches belong to the owning property; only sanitizer reports,
-                // traps and crashes (which never return here) count
+                // traps and crashes (which never return here) count - and lifetime-registry violations (an object
+                // read, assigned or destroyed outside its lifetime is undefined behaviour even when the storage is
+                // inline and the sanitizers cannot see it)
                 ++stats().functional_mismatch_ignored;
                 d.clear();
             }
